@@ -261,6 +261,59 @@ def h_step_count_units(u: int, g: int, opt: int, tu: int) -> bool:
                                "sig": "c10-step-count-units", "structure": "LibRDEngine", "viol": "the number of steps to completion depends on the units in which t_max / the time step are written"},
                               dict(DROP, sig="c10-" + DROP["sig"]), dict(SNAP, sig="c10-" + SNAP["sig"])])
     two_objects(rec)
+    no_hang(rec)
+
+
+def no_hang(rec):
+    """Every loop call returns: the unwinding bound of the symbolic legs cuts a loop that does not terminate (listed as inconclusive),
+    so the termination clause is also exercised on the REAL build in child processes with a time limit, on the inputs where the
+    sampling loops do the most work per call: several requested times inside one step, a repeated first time, a requested list that
+    starts after 0, a single requested time - grid and graph, three engine kinds."""
+    import os
+    import subprocess
+    import sys
+    from ..common import scratch, SRC, VERIF
+    code = r'''
+import sys
+sys.path.insert(0, %r); sys.path.insert(0, %r)
+from strengths import *
+from strengths.rdgraphspace import RDGraphSpaceNode as N_, RDGraphSpaceEdge as E_
+from vt.glue import real_engine
+k, opt, graph = int(sys.argv[1]), sys.argv[2], int(sys.argv[3])
+ts = [[0, 0.25, 0.26, 1.0], [0, 0, 0.5], [0.3, 0.31, 0.32], [0.7], [0, 0.05, 0.06, 0.07, 0.08, 2.0]][k]
+net = RDNetwork(species=[Species("A", D=1.0), Species("B", D=0.5)], reactions=[Reaction("A -> B", kf=1.0, kr=0.5)])
+space = RDGraphSpace(nodes=[N_(1.0, 0), N_(1.0, 0), N_(1.0, 0)], edges=[E_(0, 1), E_(1, 2)]) if graph else RDGridSpace(w=3, h=1, d=1)
+s = RDSystem(net, space, state=[40.0, 10.0, 0.0, 5.0, 0.0, 30.0])
+e = real_engine(opt)
+e.setup(RDScript(s, ts, time_step=0.1, rng_seed=3))
+n = 0
+while e.iterate() and n < 200000:
+    n += 1
+o = e.get_output(); e.finalize()
+print("RETURNED", n, len(o.t.value))
+''' % (SRC, VERIF)
+    path = os.path.join(scratch(), "no_hang.py")
+    open(path, "w").write(code)
+    bad = []
+    for k in range(5):
+        for opt in ("euler", "tauleap", "gillespie"):
+            for graph in (0, 1):
+                try:
+                    r = subprocess.run([sys.executable, path, str(k), opt, str(graph)], capture_output=True, text=True, timeout=30, env=dict(os.environ, VERIF_SHARED_SCRATCH=scratch()))
+                    if "RETURNED" not in r.stdout:
+                        bad.append("scenario %d %s %s: ended without returning (exit code %d) %s" % (k, opt, "graph" if graph else "grid", r.returncode, r.stderr.strip()[-160:]))
+                except subprocess.TimeoutExpired:
+                    bad.append("scenario %d %s %s: no return within 30 s" % (k, opt, "graph" if graph else "grid"))
+                if len(bad) >= 3:
+                    break
+            if len(bad) >= 3:
+                break
+        if len(bad) >= 3:
+            break
+    rec.oblig("every loop call returns on the real build (sampling-loop scenarios: several requested times in one step, repeated first time, list starting after 0, single time; grid / graph x 3 engines, child processes with a time limit)",
+              "holds" if not bad else "violated", bad[:3], 0, "real build, no hang")
+    if bad:
+        rec.violation("c10-loop-call-does-not-return", "a set-up / loop call of the real build does not return: " + "; ".join(bad[:3]), {"scenarios": bad[:6]})
 
 
 def two_objects(rec):
